@@ -93,6 +93,12 @@ fn main() {
         // leios fetch queue: request, purge, request
         vec![Ev::Include(1), Ev::Hk(false), Ev::Connected(1), Ev::Sent(1, Msg::HsPropose(vec![(13, M)])), Ev::Recv(1, vec![Msg::HsAccept(15, 1)]),
              Ev::FetchEb(2, 1), Ev::FetchEb(1, 2), Ev::FetchEbTxs(1, 3), Ev::Hk(false), Ev::Error(1), Ev::Hk(false)],
+        // leios fetch: a single queued request (index 0 is the last element), then a second round
+        vec![Ev::Include(1), Ev::Hk(false), Ev::Connected(1), Ev::Sent(1, Msg::HsPropose(vec![(13, M)])), Ev::Recv(1, vec![Msg::HsAccept(15, 1)]),
+             Ev::FetchEb(1, 2), Ev::Hk(false), Ev::Sent(1, Msg::LfBlockRequest(2)), Ev::Recv(1, vec![Msg::LfBlock(5)]), Ev::FetchEbTxs(1, 3), Ev::FetchEb(2, 4), Ev::Hk(true)],
+        // block fetch and chain sync queues with a peer that errors in between
+        vec![Ev::StartSync(1), Ev::RequestBlocks(2), Ev::Include(1), Ev::Hk(false), Ev::Connected(1), Ev::Sent(1, Msg::HsPropose(vec![(13, M)])), Ev::Recv(1, vec![Msg::HsAccept(13, 1)]),
+             Ev::Hk(false), Ev::Hk(false), Ev::Sent(1, Msg::BfRequestRange(2)), Ev::Recv(1, vec![Msg::BfStartBatch, Msg::BfBlock(1), Msg::PsPeers(vec![4, 5, 6])]), Ev::Error(1), Ev::ContinueSync(1), Ev::Hk(false), Ev::Disconnected(1), Ev::Hk(false)],
     ];
     for seq in &directed {
         for cfg in [PCfg { max_peers: 3, max_warm: 2, max_hot: 1, max_err: 1 }, PCfg { max_peers: 0, max_warm: 0, max_hot: 0, max_err: 0 }, PCfg { max_peers: 100, max_warm: 50, max_hot: 10, max_err: 1 }] {
